@@ -1,15 +1,15 @@
-\* (recent cache TRUE, serving cache FALSE; the four configurations are run as four TLC processes)
+\* (recent cache FALSE, serving cache TRUE, the empty block; the eight combinations are run as eight TLC processes)
 \* Behaviours of the representation graph.  The graph does not depend on the layout (only on whether the
 \* block is the empty block), so width 1 and the empty block are enough; every transition is printed as an
 \* EDGE record with the model's predictions for the probes, and replayed on the real store by the driver.
 SPECIFICATION Spec
 CONSTANTS
   MaxObj = 4
-  Ks = {1}
+  Ks = {}
   NsSeq <- Ns1
   WithEmpty = TRUE
-  CfgRs = {TRUE}
-  CfgSs = {FALSE}
+  CfgRs = {FALSE}
+  CfgSs = {TRUE}
 VIEW view
 ACTION_CONSTRAINT PrintEdge
 INVARIANTS PrintState RefsOK DiskOK ObjsCanon LatentUnreachable
